@@ -100,11 +100,14 @@ def export_pe(pe):
             return {"t": "node", "i": index[v.owner]}
         return {"t": "node", "i": -1}    # forward reference: resolved below
 
-    ops = [o for o in pe.body.block.ops if isinstance(o, phs.ChooseOp | phs.MuxOp)]
+    ops = [o for o in pe.body.block.ops if not isinstance(o, phs.YieldOp)]
     for i, o in enumerate(ops):
         index[o] = i + 1
     for o in ops:
-        if isinstance(o, phs.MuxOp):
+        if not isinstance(o, phs.ChooseOp | phs.MuxOp):
+            # an operation without a switch (hardware view after phs-remove-one-option-switches)
+            nodes.append({"kind": "op", "sw": -1, "a": [ref(x) for x in o.operands][:2], "alts": [{"op": o.name, "a": [0, 1]}]})
+        elif isinstance(o, phs.MuxOp):
             nodes.append({"kind": "mux", "sw": switches.index(o.switch), "a": [ref(o.lhs), ref(o.rhs)], "alts": [{"op": "", "a": [0, 0]}]})
         else:
             alts = []
